@@ -173,7 +173,9 @@ Record Inv (root : tree) (s : state) : Prop := mkInv {
   I_K : cons s = CRun \/ cons s = CEos -> forall x,
         occ x (map REntry (recvd s)) + occ x (rq (gl s)) +
         sumf (fun j => occ x (jfut j)) (jobs (gl s)) + sumf (fun w => occ x (wfut w)) (ws s) =
-        occ x (walk_all [] root)
+        occ x (walk_all [] root);
+  (* what has been received is part of the reference listing, also after a failure *)
+  I_R : exists rest, forall x, occ x (map REntry (recvd s)) + occ x rest = occ x (walk_all [] root)
 }.
 
 Lemma inv_init root : Inv root (init N root).
@@ -186,6 +188,7 @@ Proof.
   - intros _. apply sumf_repeat0. reflexivity.
   - discriminate.
   - intros _ x. cbn [map sumf jfut]. rewrite sumf_repeat0 by reflexivity. rewrite occ_nil. lia.
+  - exists (walk_all [] root). intros x. cbn [map]. rewrite occ_nil. lia.
 Qed.
 
 Lemma exited_no_step al g w g' w' : wstep N C al g w g' w' -> exited w = false.
@@ -202,7 +205,7 @@ Proof. intros Hw. destruct Hw; cbn [gonew]; try lia; discriminate. Qed.
 
 Lemma inv_step root s s' : Inv root s -> step N C s s' -> Inv root s'.
 Proof.
-  intros [Hlen HC HL HG HE HK] Hs. destruct Hs as [s a w b g' w' Hws Hw|s e r Hc Hrq|s r Hc Hrq|s Hc|s Hc Hrq Hex].
+  intros [Hlen HC HL HG HE HK HR] Hs. destruct Hs as [s a w b g' w' Hws Hw|s e r Hc Hrq|s r Hc Hrq|s Hc|s Hc Hrq Hex].
   - (* a worker acts *)
     rewrite Hws in *.
     constructor; cbn [gl ws cons recvd].
@@ -218,6 +221,7 @@ Proof.
       assert (Hal : alive (cons s) = true) by (destruct Hc as [-> | ->]; reflexivity).
       rewrite Hal in Hw. pose proof (k_wstep _ _ _ _ Hw x) as Hk.
       rewrite sumf_app in *. cbn [sumf] in *. lia.
+    + exact HR.
   - (* the consumer takes an entry *)
     constructor; cbn [gl ws cons recvd jobs cnt rq leaked].
     + exact Hlen.
@@ -227,6 +231,9 @@ Proof.
     + discriminate.
     + intros _ x. specialize (HK (or_introl Hc) x). rewrite Hrq in HK.
       rewrite map_app, occ_app. cbn [map]. rewrite occ_cons in *. rewrite occ_nil. lia.
+    + exists (r ++ flat_map jfut (jobs (gl s)) ++ flat_map wfut (ws s)). intros x.
+      specialize (HK (or_introl Hc) x). rewrite Hrq in HK.
+      rewrite map_app, !occ_app, !occ_flat_map. cbn [map]. rewrite occ_cons in *. rewrite occ_nil. lia.
   - (* the consumer takes an error *)
     constructor; cbn [gl ws cons recvd jobs cnt rq leaked].
     + exact Hlen.
@@ -235,6 +242,7 @@ Proof.
     + intros _. apply HG. rewrite Hc. reflexivity.
     + discriminate.
     + intros [?|?]; discriminate.
+    + exact HR.
   - (* the consumer drops the receiver *)
     constructor; cbn [gl ws cons recvd jobs cnt rq leaked].
     + exact Hlen.
@@ -243,6 +251,7 @@ Proof.
     + discriminate.
     + discriminate.
     + intros [?|?]; discriminate.
+    + exact HR.
   - (* end of stream *)
     constructor; cbn [gl ws cons recvd].
     + exact Hlen.
@@ -251,6 +260,7 @@ Proof.
     + intros _. apply HG. rewrite Hc. reflexivity.
     + intros _. split; assumption.
     + intros _ x. apply HK. auto.
+    + exact HR.
 Qed.
 
 Lemma reach_inv root s : reach N C root s -> Inv root s.
@@ -350,7 +360,7 @@ Proof. intros H1 H2. pose proof (jobs_len l). destruct l; [reflexivity|cbn [leng
 (* Nobody panics: the assertion never fails and the counter never wraps. *)
 Lemma no_panic root s : reach N C root s -> forall w, In w (ws s) -> w <> WBad.
 Proof.
-  intros Hr w Hin ->. destruct (reach_inv _ _ _ _ Hr) as [_ (_ & _ & _ & Hb) _ _ _ _].
+  intros Hr w Hin ->. destruct (reach_inv _ _ _ _ Hr) as [_ (_ & _ & _ & Hb) _ _ _ _ _].
   pose proof (sumf_zero_forall _ _ Hb _ Hin) as H. discriminate.
 Qed.
 
@@ -359,7 +369,7 @@ Lemma eos_complete root s : reach N C root s -> cons s = CEos ->
   Permutation (map REntry (recvd s)) (walk_all [] root) /\
   ws s = repeat WExit N /\ jobs (gl s) = [] /\ rq (gl s) = [] /\ cnt (gl s) = 0.
 Proof.
-  intros Hr Hc. destruct (reach_inv _ _ _ _ Hr) as [Hlen (HB & H1 & H2 & Hb) _ HG HE HK].
+  intros Hr Hc. destruct (reach_inv _ _ _ _ Hr) as [Hlen (HB & H1 & H2 & Hb) _ HG HE HK _].
   destruct (HE Hc) as [Hex Hrq].
   assert (Hal : alive (cons s) = true) by (rewrite Hc; reflexivity).
   destruct (all_exit_sums _ Hex (HG Hal) Hb) as (S1 & S2 & S3 & S4).
@@ -423,7 +433,7 @@ Lemma noerror_never_fails root s : reach N C root s -> has_error root = false ->
 Proof.
   intros Hr He. induction Hr as [|s s' Hr IH Hs]; [left; reflexivity|].
   destruct Hs as [s a w b g' w' Hws Hw|s e r Hc Hrq|s r Hc Hrq|s Hc|s Hc Hrq Hex]; cbn [cons]; auto.
-  - exfalso. destruct (reach_inv _ _ _ _ Hr) as [_ _ _ _ _ HK].
+  - exfalso. destruct (reach_inv _ _ _ _ Hr) as [_ _ _ _ _ HK _].
     specialize (HK (or_introl Hc) RErr). rewrite Hrq, occ_cons, ind_refl in HK.
     assert (Hin : In RErr (walk_all [] root)) by (apply occ_In; lia).
     apply has_error_In in Hin. congruence.
@@ -491,7 +501,7 @@ Hypothesis HC : C >= 1.
 
 Lemma no_stuck root s : reach N C root s -> final s \/ exists s', step N C s s'.
 Proof.
-  intros Hr. destruct (reach_inv _ _ _ _ Hr) as [Hlen (HB & H1 & H2 & Hb) HL HG HE HK].
+  intros Hr. destruct (reach_inv _ _ _ _ Hr) as [Hlen (HB & H1 & H2 & Hb) HL HG HE HK _].
   unfold final. destruct (cons s) eqn:Hc.
   - (* CRun *) right.
     destruct (rq (gl s)) as [|[e|] r] eqn:Hrq.
